@@ -101,6 +101,18 @@ CLAIMS["C09"] = {
             "reading the code. " + _TB,
 }
 
+CLAIMS["C08"] = {
+    "text": "Decides the critical-section clauses behind C08: readers (get, iterator, snapshot) capture memtable, immutable "
+            "memtable, current version and sequence number inside one section of the DB mutex and pin/search exactly the "
+            "captured objects; the writer reads and stamps its sequence range in the section in which it is queue head and "
+            "publishes it under the mutex after the insert and before any follower is released, the queue is shifted or the "
+            "next head is woken; memtable switch and version install are single sections after the relock; the lock-free "
+            "head-writer accesses are confined. Linearizability of concrete histories is not decided.",
+    "design_ref": "DESIGN.md 5/C08",
+    "technique": "static analysis: critical-section identity automata over all feasible CFG paths + interprocedural lock-state contexts",
+    "note": "Necessary conditions only. " + _TB,
+}
+
 _PENDING = ("check not built yet in this revision; the property is listed here so that it is not claimed "
             "without machinery (see DESIGN.md for the planned rules)")
 
